@@ -34,7 +34,7 @@ class RealAlg:
         self.INF = z3.Real('INF__')        # symbolic "infinity" used only where a query opts in
     def const(self, f):
         if math.isinf(f): return Fl(self.INF if f > 0 else -self.INF)
-        if math.isnan(f): raise ValueError('NaN constant under R policy')
+        if math.isnan(f): return Fl(z3.Real('NAN__'))          # a NaN literal is only ever data under the R policy (never compared)
         fr = Fraction(f)
         # use the shortest decimal when it is exact enough to round-trip (keeps terms readable)
         return Fl(z3.RealVal(fr))
